@@ -70,4 +70,79 @@ theorem net_one_commit_hash_per_view (hwf : WF C) {net : Net} (hr : Reach C net)
     · exact cert_of_commitQuorum hwf hv c
   exact Spec.cert_unique (setting C hwf) hv c1 c2
 
+/-! ## order: nothing is accepted below a view the member has voted for -/
+
+theorem localValid_suffix {A B : List LEv} (h : C01Local.LocalValid (A ++ B)) : C01Local.LocalValid B := by
+  induction A with
+  | nil => exact h
+  | cons a A ih =>
+    cases h with
+    | cons hv _ => exact ih hv
+
+/-- an element of `filterMap f l` that comes before another one comes from an element of `l` that comes before the other's -/
+theorem filterMap_order {α β : Type} (f : α → Option β) {l : List α} {A B D : List β} {a b : β}
+    (h : l.filterMap f = A ++ a :: (B ++ b :: D)) :
+    ∃ l1 x l2 y l3, l = l1 ++ x :: (l2 ++ y :: l3) ∧ f x = some a ∧ f y = some b := by
+  obtain ⟨p1, p2, e1, _, h2⟩ := List.filterMap_eq_append_iff.mp h
+  obtain ⟨q1, x, q2, e2, _, hx, h3⟩ := List.filterMap_eq_cons_iff.mp h2
+  obtain ⟨r1, r2, e3, _, h4⟩ := List.filterMap_eq_append_iff.mp h3
+  obtain ⟨s1, y, s2, e4, _, hy, _⟩ := List.filterMap_eq_cons_iff.mp h4
+  refine ⟨p1 ++ q1, x, r1 ++ s1, y, s2, ?_, hx, hy⟩
+  rw [e1, e2, e3, e4]
+  simp [List.append_assoc]
+
+/-- **After a VIEW_CHANGE for view v' has gone out, the member sends no PREPREPARE, NEW_VIEW proposal or PREPARE for a
+view below v'** — read off the order of its effects in any execution of the network model. -/
+theorem net_no_acceptance_below_sent_vote (hwf : WF C) {net : Net} (hr : Reach C net) {i : Nat} (hh : C.honest i = true)
+    (hm : ∃ m ∈ C.ms, m.id = i) {pre mid post : List Out} {o1 o2 : Out}
+    (houts : net.outs i = pre ++ o1 :: (mid ++ o2 :: post))
+    {v' v h : Nat} {pf : Option (Nat × Nat)}
+    (s1 : stmtOf o1 = some (.vote v' pf)) (s2 : stmtOf o2 = some (.acc v h)) : v' ≤ v := by
+  have hinv := reach_inv hwf hr
+  cases hst : net.started i with
+  | false =>
+    have := (hinv.fresh i hst).2.1
+    rw [this] at houts
+    cases pre <;> cases houts
+  | true =>
+    obtain ⟨⟨T, hcore, herase⟩, _, _, _, _⟩ := hinv.nodes i hh hm hst
+    -- the statements in the order of the effects
+    have hS : (net.outs i).filterMap stmtOf
+        = pre.filterMap stmtOf ++ Stmt.vote v' pf :: (mid.filterMap stmtOf ++ Stmt.acc v h :: post.filterMap stmtOf) := by
+      rw [houts]
+      simp [List.filterMap_append, List.filterMap_cons, s1, s2]
+    rw [herase] at hS
+    obtain ⟨l1, x, l2, y, l3, eT, hx, hy⟩ := filterMap_order Term.erase hS
+    -- x is the vote, y the acceptance; in `T` (newest first) y stands before x
+    have hT : T = l3.reverse ++ y :: (l2.reverse ++ x :: l1.reverse) := by
+      have := congrArg List.reverse eT
+      rw [List.reverse_reverse] at this
+      rw [this]
+      simp [List.reverse_append, List.append_assoc]
+    have hval : C01Local.LocalValid (y :: (l2.reverse ++ x :: l1.reverse)) :=
+      localValid_suffix (A := l3.reverse) (by rw [← hT]; exact hcore.ginv.valid)
+    cases hval with
+    | cons _ hj =>
+      -- shapes of x and y
+      cases y with
+      | acc vy hy' fy =>
+        simp only [Term.erase, Option.some.injEq, Stmt.acc.injEq] at hy
+        obtain ⟨rfl, rfl⟩ := hy
+        cases x with
+        | vote vx pfx sx =>
+          cases sx with
+          | true =>
+            simp only [Term.erase, Option.some.injEq, Stmt.vote.injEq] at hx
+            obtain ⟨rfl, rfl⟩ := hx
+            exact hj.2.1 vx pfx true (List.mem_append_right _ List.mem_cons_self)
+          | false => simp [Term.erase] at hx
+        | acc _ _ _ => simp [Term.erase] at hx
+        | com _ _ => simp [Term.erase] at hx
+        | lcom _ _ => simp [Term.erase] at hx
+        | dec _ => simp [Term.erase] at hx
+      | com _ _ => simp [Term.erase] at hy
+      | lcom _ _ => simp [Term.erase] at hy
+      | dec _ => simp [Term.erase] at hy
+      | vote _ _ sy => cases sy <;> simp [Term.erase] at hy
+
 end LeanHelix.C10Net
